@@ -262,8 +262,10 @@ RecvCookieEcho(s, p) ==
       THEN UNCHANGED <<st, opens>>             \* RFC 4960 5.2.4 case D: only acknowledge
       ELSE /\ st' = [st EXCEPT ![s] = "Connected"]
            /\ opens' = [opens EXCEPT ![s] = @ + 1])
+  \* an INIT of this end that is still unanswered is not needed any more
+  /\ t1' = IF st[s] # "Connected" /\ t1[s] = "Init" THEN [t1 EXCEPT ![s] = "None"] ELSE t1
   /\ NetRecv(s, p, <<Pkt("CACK", s, 0, NoFrag, {})>>)
-  /\ UNCHANGED <<t1, t1cnt, itsn, answered, next, rx, sentQ, outQ, sub, ssnOut, deliv>> /\ PrSame /\ NoFault
+  /\ UNCHANGED <<t1cnt, itsn, answered, next, rx, sentQ, outQ, sub, ssnOut, deliv>> /\ PrSame /\ NoFault
 
 \* The COOKIE-ACK stops the T1 timer of this end's COOKIE-ECHO, also when the association is already up.
 \* A variant that discards it once Connected leaves the timer running: deviation "CookieAckDroppedWhenConnected".
